@@ -26,6 +26,6 @@ def run(tier, seed):
     rep.explanation = ("Mixed. Deductive: the escape rule (pyvc, all paths): fires only on a backslash, for an ASCII-punctuation successor pushes exactly one text_special whose content is that character and advances by 2, "
                        "keeps backslash + character otherwise, never touches level/posMax, is pure when silent or failing; ORDER: text_join runs last in the core chain. Bounded: the end-to-end statement on the real render over templates x texts "
                        "(entity rule, text_join folding, renderer escaping, title unescaping are covered there).")
-    rep.trusted_base = STD_TRUST
-    rep.assumptions = ["table cell template written with padding blanks (`| e |`), see DESIGN.md 5 #11"]
+    rep.trusted_base += STD_TRUST
+    rep.assumptions += ["table cell template written with padding blanks (`| e |`), see DESIGN.md 5 #11"]
     return rep
